@@ -130,6 +130,10 @@ const (
 	SpsBDelay = "spsBdelay"
 	SpsD      = "spsD" // MachineD.SinglePipelineSimulate: the program sends a peripheral command
 	Fit0      = "fit0" // MachineB.Fitness_default with a budget of ZERO ticks: the workers are launched and stopped at once
+	// MachineA.Fitness_default scored against expectations written for a machine of another shape (they name an
+	// output MachineA does not have): the call is rejected with an error, as an evolutionary run does for every
+	// candidate that does not fit its expectation file
+	FitMisfit = "fitMisfit"
 )
 
 // delayTable is shared by all calls (simfinetune shares one table too); single-valued distributions keep the
@@ -153,6 +157,8 @@ func EntryPoint(kind string) string {
 		return "Fitness_default"
 	case Fit0:
 		return "Fitness_default(zero ticks)"
+	case FitMisfit:
+		return "Fitness_default(expectations of another machine shape)"
 	case Basm:
 		return "basm.BasmInstanceInit"
 	}
@@ -195,12 +201,18 @@ func (e *Env) Call(kind string) string {
 			return "error: " + err.Error()
 		}
 		return fmt.Sprint(out)
-	case FitA, FitB, Fit0:
+	case FitA, FitB, Fit0, FitMisfit:
 		bm := e.A
-		if kind != FitA {
+		if kind != FitA && kind != FitMisfit {
 			bm = e.B
 		}
 		in, exp := new(simbox.Simbox), new(simbox.Simbox)
+		if kind == FitMisfit {
+			exp.Rules = []simbox.Rule{
+				{Timec: simbox.TIMEC_ABS, Tick: 1, Action: simbox.ACTION_SET, Object: "o0", Extra: "2"},
+				{Timec: simbox.TIMEC_ABS, Tick: 1, Action: simbox.ACTION_SET, Object: "o5", Extra: "2"},
+			}
+		}
 		ticks := uint64(2)
 		if kind == FitB {
 			ticks = 1
@@ -341,7 +353,7 @@ func Enumerate(maxN int) []History {
 			add(History{Callers: [][]string{rep(FitB, n)}})
 		}
 	}
-	for _, s := range [][]string{{SpsA, FitA}, {FitA, SpsA}, {SpsA, Basm}, {Basm, SpsA}, {SpsBErr, SpsA}, {SpsA, SpsBErr}, {SpsC, SpsA}, {SpsA, SpsC}, {SpsBDelay, SpsA}, {SpsA, SpsBDelay}, {SpsD, SpsA}, {SpsA, SpsD}, {SpsD, SpsD}, {Fit0, Fit0}, {Fit0, SpsA}, {SpsA, Fit0}} {
+	for _, s := range [][]string{{SpsA, FitA}, {FitA, SpsA}, {SpsA, Basm}, {Basm, SpsA}, {SpsBErr, SpsA}, {SpsA, SpsBErr}, {SpsC, SpsA}, {SpsA, SpsC}, {SpsBDelay, SpsA}, {SpsA, SpsBDelay}, {SpsD, SpsA}, {SpsA, SpsD}, {SpsD, SpsD}, {Fit0, Fit0}, {Fit0, SpsA}, {SpsA, Fit0}, {FitMisfit, FitMisfit}, {FitMisfit, SpsA}, {SpsA, FitMisfit}} {
 		add(History{Callers: [][]string{s[:1]}})
 		add(History{Callers: [][]string{s}})
 	}
